@@ -2,7 +2,8 @@ import Grol.Eval.Sexp
 import Grol.Registers
 /-
 Model of the register OPTIMISATION of eval/eval.go: `ModifyRegister` (the callback), `ast.Modify`
-specialised to it (`modifyRegister`), `setupRegister`, `registerEligible` and the decision sequences
+specialised to it (`modifyRegister`), `setupRegister`, the eligibility test written inline in both callers
+(`registerEligible`; its source text is pinned in Grol/Generated/RegFacts.lean) and the decision sequences
 of `evalForInteger` / `extendFunctionEnv` (`useRegister`, `useRegisters`).
 
 Representation.  A rewritten body holds `*object.Register` nodes, which the evaluator model's `Node`
@@ -316,7 +317,9 @@ def countRegList (name : String) (idx : Nat) : List RNode → Nat
   | x :: xs => countReg name idx x + countRegList name idx xs
 end
 
-/-- `registerEligible`: the test made before looking at the body -/
+/-- the test made before looking at the body: `useReg := name != "" && !s.NoReg && s.env.HasRegisters() &&
+!object.Constant(name)` in `evalForInteger`; the same conjunction without `name != ""` (the empty name is a
+constant name) in `extendFunctionEnv`, where the integer test and `!ownName` come on top (`isInt` in `useRegister`) -/
 def registerEligible (noReg : Bool) (f : Reg.File) (name : String) : Bool :=
   name != "" && !noReg && f.hasRegisters && !isConstant name
 
